@@ -7,7 +7,7 @@
   unfolds `requestReordering`, so each covers the request firing at any `find_or_add` (every
   `_last_len`, and the harness's "fire at the k-th request" override).
 
-  ## The one hypothesis: `SiftContract ext`  (DDProofs.DynGeneric)
+  ## The contract of sifting: `SiftContract ext`  (DDProofs.DynGeneric), PROVED in DDProofs.DynSift
 
   ```
   structure DynInv (ext : Nat → Nat) (m : Mgr) : Prop where
@@ -26,20 +26,24 @@
   ghost ledger of user-held references of `RefExact`, C06) and `denN` is the denotation as a
   function of variable NAMES.  It is the statement of C07 about `reorder(bdd)` (sifting).
 
-  Mapping to the C07 development (branch slice-swapproof): `DynInv ext m` is
-  `ReorderInv ext m` (`inv`, `order`, `refExact`, `rootsHeld`; its `off` follows from
-  `ctx = false`) plus `sched = []` and `2 ≤ nvars`.  `C07_sift_partial` gives, WHEN
-  `reorder none m` returns `.ok`: `ReorderInv ext m'`, `HeldSame ext m m'` (= the last clause for
-  `0 < ext u`; for the terminal it is trivial), `m'.nvars = m.nvars` (via the collected state).
-  Still to be supplied there: (a) `sift_never_asserts_statement` (sifting returns normally — the
-  open clause of C07; with `sched = []` the schedule error is excluded), (b) the declared names
-  are kept (`vars.contains`), `m'.sched = []`, `m'.ctx = false`, `m'.lastLen = none` (frame facts
-  of every swap/collection).  `SiftContract` replaces the former `SiftSpec`, which quantified
-  over every `Inv` state and is FALSE (`not_siftSpec` in DDProofs.DynApply: sifting fails on a
-  state whose recorded schedule does not start with a sifting order).
-  The contract is satisfiable on a concrete state: `C09_siftContract_example`.
+  Mapping to C07: `DynInv ext m` is `ReorderInv ext m` (`inv`, `order`, `refExact`, `rootsHeld`;
+  its `off` follows from `ctx = false`) plus `sched = []` and `2 ≤ nvars` (with one variable the
+  real `reorder` raises `ValueError`, C07 `sift_single_variable_raises`).  The contract is C07's
+  totality theorem for the default schedule (`C07_sift_total` / `applySifting_total_default`):
+  `ReorderInv ext m'`, `m'.sched = []`, and `ReorderRel ext m m'` (held denotations by name,
+  declared names, `nvars`, `roots`, `ctx`, `lastLen` kept).  The bridge is
+  `siftContract (ext) : SiftContract ext` (DDProofs.DynSift, `C09_siftContract` below), so the
+  transparency theorems of this file are UNCONDITIONAL.  The lemmas with the contract as an
+  explicit hypothesis are `tryToReorder_transparent`, `ite_transparent`, `var_transparent`,
+  `quantify_transparent`, `cofactor_transparent`, `compose_transparent`, `rename_transparent`,
+  `apply_binary_transparent`, `apply_ite_transparent`, `let_*_transparent` (DDProofs.Dyn*).
+  `SiftContract` replaces the former `SiftSpec`, which quantified over every `Inv` state and is
+  FALSE (`not_siftSpec` in DDProofs.DynApply: sifting fails on a state whose recorded schedule
+  does not start with a sifting order).  `C09_siftContract_example` evaluates the contract's
+  conclusion on a concrete manager.
 -/
 import DDProofs.DynExample
+import DDProofs.DynSift
 import DDProps.Tables
 namespace DD
 
@@ -143,7 +147,7 @@ theorem C09_copyBddF_abort_aware (src : Option Tbl) (lm : List (Nat × Nat)) (S 
 example : Inv { exM with ctx := true } ∧ Quiet { exM with ctx := true } :=
   ⟨exM_inv.setCtx true, Or.inl rfl⟩
 
-/-! ## the decorator, conditional on the contract of sifting -/
+/-! ## the decorator (the contract of sifting is `siftContract`, from C07) -/
 
 /-- C09, GENERIC: for any body `f` that in every state satisfying the invariant (inside a context,
 `Pre` on its table, operands `ops` present) returns a result documented by `Doc` or is aborted
@@ -153,22 +157,22 @@ whichever `find_or_add` — returns the documented result relative to the operan
 never raises the signal (`.ok`), leaves a state `DynInv` (counts exact for the same ledger, flag
 cleared), reordering enabled iff it was, the same declared names, and every user-held reference
 with the same meaning by name. -/
-theorem C09_decorator_transparent_of_siftContract {α} (ext : Nat → Nat) (hS : SiftContract ext)
-    (f : M α) (ops : List Int) (Pre : Tbl → Prop) (Doc : Tbl → α → Tbl → Prop)
+theorem C09_decorator_transparent {α} (ext : Nat → Nat) (f : M α) (ops : List Int)
+    (Pre : Tbl → Prop) (Doc : Tbl → α → Tbl → Prop)
     (hbody : ∀ m0 : Mgr, Inv m0 → m0.ctx = true → OrderOK m0.tbl → Pre m0.tbl →
       (∀ u ∈ ops, m0.tbl.Mem u) → Outcome m0 (fun r m1 => Doc m0.tbl r m1.tbl) (f m0))
     (hpre : ∀ t t', Bridge ops t t' → Pre t → Pre t')
     (hdoc : ∀ t t' r t'', Bridge ops t t' → Pre t → Doc t' r t'' → Doc t r t'')
     (m : Mgr) (hD : DynInv ext m) (hops : ∀ u ∈ ops, HeldX ext u) (hpre0 : Pre m.tbl) :
     ∃ r m', tryToReorder f m = (.ok r, m') ∧ DynPostG ext Doc m r m' :=
-  tryToReorder_transparent ext hS f ops Pre Doc hbody hpre hdoc m hD hops hpre0
+  tryToReorder_transparent ext (siftContract ext) f ops Pre Doc hbody hpre hdoc m hD hops hpre0
 
 /-- C09 `ite` (with dynamic reordering enabled, at whichever node creation the request fires):
 the result denotes — by variable name — the if-then-else of the operands as they were. -/
-theorem C09_ite_transparent_of_siftContract (ext : Nat → Nat) (hS : SiftContract ext) (m : Mgr)
+theorem C09_ite_transparent (ext : Nat → Nat) (m : Mgr)
     (hD : DynInv ext m) (g u v : Int) (hg : HeldX ext g) (hu : HeldX ext u) (hv : HeldX ext v) :
     ∃ r m', ite g u v m = (.ok r, m') ∧ DynPostG ext (IteDoc g u v) m r m' :=
-  ite_transparent ext hS m hD g u v hg hu hv
+  ite_transparent ext (siftContract ext) m hD g u v hg hu hv
 
 /-- non-vacuity: a state with reordering enabled and a request due at the next `find_or_add`,
 operands held; on it the first attempt IS aborted and the decorated call returns normally -/
@@ -177,57 +181,57 @@ example : DynInv exExt exDyn ∧ HeldX exExt 4 ∧ HeldX exExt (-1) ∧ exDyn.la
   ⟨exDyn_dynInv, exExt_held4, Or.inl rfl, rfl, by decide⟩
 
 /-- C09 `apply(op, u, v)` for every binary propositional alias of the regenerated vocabulary -/
-theorem C09_apply_binary_transparent_of_siftContract (ext : Nat → Nat) (hS : SiftContract ext)
-    (m : Mgr) (hD : DynInv ext m) (op : String) (c : Conn) (hc : docConn op = some c)
+theorem C09_apply_binary_transparent (ext : Nat → Nat) (m : Mgr) (hD : DynInv ext m) (op : String)
+    (c : Conn) (hc : docConn op = some c)
     (h2 : c.arity = 2) (hq1 : c ≠ .forall_) (hq2 : c ≠ .exists_)
     (hall : Gen.allOps.contains op = true) (u v : Int) (hu : HeldX ext u) (hv : HeldX ext v) :
     ∃ r m', apply op u (some v) none m = (.ok r, m') ∧ DynPostG ext (ConnDoc c u v) m r m' :=
-  apply_binary_transparent ext hS m hD op c hc h2 hq1 hq2 hall u v hu hv
+  apply_binary_transparent ext (siftContract ext) m hD op c hc h2 hq1 hq2 hall u v hu hv
 
 example : docConn "and" = some .and ∧ Conn.and.arity = 2 ∧ Gen.allOps.contains "and" = true := by
   decide
 
 /-- C09 `apply('ite', u, v, w)` -/
-theorem C09_apply_ite_transparent_of_siftContract (ext : Nat → Nat) (hS : SiftContract ext)
-    (m : Mgr) (hD : DynInv ext m) (op : String) (hc : docConn op = some .ite)
+theorem C09_apply_ite_transparent (ext : Nat → Nat) (m : Mgr) (hD : DynInv ext m) (op : String)
+    (hc : docConn op = some .ite)
     (hall : Gen.allOps.contains op = true) (u v w : Int) (hu : HeldX ext u) (hv : HeldX ext v)
     (hw : HeldX ext w) :
     ∃ r m', apply op u (some v) (some w) m = (.ok r, m') ∧ DynPostG ext (Ite3Doc u v w) m r m' :=
-  apply_ite_transparent ext hS m hD op hc hall u v w hu hv hw
+  apply_ite_transparent ext (siftContract ext) m hD op hc hall u v w hu hv hw
 
 /-- C09 `var(name)` -/
-theorem C09_var_transparent_of_siftContract (ext : Nat → Nat) (hS : SiftContract ext) (m : Mgr)
+theorem C09_var_transparent (ext : Nat → Nat) (m : Mgr)
     (hD : DynInv ext m) (name : String) (hdecl : m.tbl.vars.contains name = true) :
     ∃ r m', var name m = (.ok r, m') ∧ DynPostG ext (VarDoc name) m r m' :=
-  var_transparent ext hS m hD name hdecl
+  var_transparent ext (siftContract ext) m hD name hdecl
 
 example : exDyn.tbl.vars.contains "a" = true := by decide
 
 /-- C09 `quantify` / `exist` / `forall` over declared variable NAMES: the result is the
 quantification, over those names, of the operand as it was -/
-theorem C09_quantify_transparent_of_siftContract (ext : Nat → Nat) (hS : SiftContract ext)
-    (m : Mgr) (hD : DynInv ext m) (u : Int) (hu : HeldX ext u) (fa : Bool) (names : List String)
+theorem C09_quantify_transparent (ext : Nat → Nat) (m : Mgr) (hD : DynInv ext m) (u : Int)
+    (hu : HeldX ext u) (fa : Bool) (names : List String)
     (hdecl : ∀ s ∈ names, m.tbl.vars.contains s = true) :
     ∃ r m', quantify u (names.map Key.name) fa m = (.ok r, m') ∧
       DynPostG ext (QuantDoc fa names u) m r m' :=
-  quantify_transparent ext hS m hD u hu fa names hdecl
+  quantify_transparent ext (siftContract ext) m hD u hu fa names hdecl
 
 example : ∀ s ∈ ["a"], exDyn.tbl.vars.contains s = true := by decide
 
 /-- C09 `cofactor` (`let` with Boolean values) -/
-theorem C09_cofactor_transparent_of_siftContract (ext : Nat → Nat) (hS : SiftContract ext)
-    (m : Mgr) (hD : DynInv ext m) (u : Int) (hu : HeldX ext u) (vals : List (String × Bool))
+theorem C09_cofactor_transparent (ext : Nat → Nat) (m : Mgr) (hD : DynInv ext m) (u : Int)
+    (hu : HeldX ext u) (vals : List (String × Bool))
     (hdecl : ∀ p ∈ vals, m.tbl.vars.contains p.1 = true) :
     ∃ r m', cofactor u (boolKeys vals) m = (.ok r, m') ∧ DynPostG ext (CofDoc vals u) m r m' :=
-  cofactor_transparent ext hS m hD u hu vals hdecl
+  cofactor_transparent ext (siftContract ext) m hD u hu vals hdecl
 
 /-- C09 `compose` (`let` with references) -/
-theorem C09_compose_transparent_of_siftContract (ext : Nat → Nat) (hS : SiftContract ext)
-    (m : Mgr) (hD : DynInv ext m) (f : Int) (hf : HeldX ext f) (varSub : List (String × Int))
+theorem C09_compose_transparent (ext : Nat → Nat) (m : Mgr) (hD : DynInv ext m) (f : Int)
+    (hf : HeldX ext f) (varSub : List (String × Int))
     (hdecl : ∀ p ∈ varSub, m.tbl.vars.contains p.1 = true)
     (hheld : ∀ p ∈ varSub, HeldX ext p.2) :
     ∃ r m', compose f varSub m = (.ok r, m') ∧ DynPostG ext (ComposeDoc varSub f) m r m' :=
-  compose_transparent ext hS m hD f hf varSub hdecl hheld
+  compose_transparent ext (siftContract ext) m hD f hf varSub hdecl hheld
 
 example : ∀ p ∈ [("a", (4 : Int))], exDyn.tbl.vars.contains p.1 = true ∧ HeldX exExt p.2 := by
   intro p hp
@@ -236,14 +240,14 @@ example : ∀ p ∈ [("a", (4 : Int))], exDyn.tbl.vars.contains p.1 = true ∧ H
   exact ⟨by decide, exExt_held4⟩
 
 /-- C09 `rename` (`let` with names) -/
-theorem C09_rename_transparent_of_siftContract (ext : Nat → Nat) (hS : SiftContract ext)
-    (m : Mgr) (hD : DynInv ext m) (u : Int) (hu : HeldX ext u) (dvars : List (String × String))
+theorem C09_rename_transparent (ext : Nat → Nat) (m : Mgr) (hD : DynInv ext m) (u : Int)
+    (hu : HeldX ext u) (dvars : List (String × String))
     (hd : ∀ p ∈ dvars, m.tbl.vars.contains p.2 = true) :
     ∃ r m', rename u dvars m = (.ok r, m') ∧ DynPostG ext (RenameDoc dvars u) m r m' :=
-  rename_transparent ext hS m hD u hu dvars hd
+  rename_transparent ext (siftContract ext) m hD u hu dvars hd
 
 /-- C09 `let` in its three homogeneous forms -/
-theorem C09_let_transparent_of_siftContract (ext : Nat → Nat) (hS : SiftContract ext) (m : Mgr)
+theorem C09_let_transparent (ext : Nat → Nat) (m : Mgr)
     (hD : DynInv ext m) (u : Int) (hu : HeldX ext u) :
     (∀ (vals : List (String × Bool)), vals ≠ [] →
       (∀ p ∈ vals, m.tbl.vars.contains p.1 = true) →
@@ -257,9 +261,9 @@ theorem C09_let_transparent_of_siftContract (ext : Nat → Nat) (hS : SiftContra
       (∀ p ∈ dvars, m.tbl.vars.contains p.2 = true) →
       ∃ r m', letOp (.names dvars) u m = (.ok r, m') ∧
         DynPostG ext (RenameDoc dvars u) m r m') :=
-  ⟨fun vals hne hd => let_bools_transparent ext hS m hD u hu vals hne hd,
-   fun varSub hne hd hh => let_refs_transparent ext hS m hD u hu varSub hne hd hh,
-   fun dvars hne hd => let_names_transparent ext hS m hD u hu dvars hne hd⟩
+  ⟨fun vals hne hd => let_bools_transparent ext (siftContract ext) m hD u hu vals hne hd,
+   fun varSub hne hd hh => let_refs_transparent ext (siftContract ext) m hD u hu varSub hne hd hh,
+   fun dvars hne hd => let_names_transparent ext (siftContract ext) m hD u hu dvars hne hd⟩
 
 /-- C09, non-vacuity of the contract: its conclusion HOLDS (by evaluation of the model) for the
 concrete manager `exM` — sifting returns normally, `DynInv` for the same ledger, same variables,
@@ -283,17 +287,17 @@ theorem C09_retry_example :
 
 /-! ## what is open -/
 
-/-- C09, open (= C07 for sifting, see the header): the contract holds for every ledger. -/
-def C09_siftContract_statement : Prop := ∀ ext : Nat → Nat, SiftContract ext
+/-- C09: the contract of sifting holds for every ledger (C07's totality of sifting). -/
+theorem C09_siftContract (ext : Nat → Nat) : SiftContract ext := siftContract ext
 
-/-- C09, FULL STATEMENT for the record.  Proved above, conditional on `SiftContract`: `ite`,
+/-- C09, FULL STATEMENT for the record.  Proved above: `ite`,
 `apply` (binary propositional aliases, `ite`), `var`, `quantify`/`exist`/`forall`, `let` in its
 three forms (`cofactor`, `compose`, `rename`).  Open: `cube` and `add_expr` (bodies that call
 other decorated entry points in a loop), `copy_bdd` into a reordering-enabled target (F4: the
 code is wrong there), the quantifier aliases of `apply`; decided for those by correspondence at
 every trigger position only. -/
 def C09_all_operations_statement : Prop :=
-  ∀ ext : Nat → Nat, SiftContract ext → ∀ (m : Mgr), DynInv ext m →
+  ∀ (ext : Nat → Nat) (m : Mgr), DynInv ext m →
     ∀ (dvars : List (String × Bool)), (∀ p ∈ dvars, m.tbl.vars.contains p.1 = true) →
       ∃ r m', cube dvars m = (.ok r, m') ∧
         DynPostG ext (fun _ r t' => t'.Mem r ∧
